@@ -15,6 +15,7 @@ import Noodles.Bgzf.DriverC14
 import Noodles.Vcf.DriverC09
 import Noodles.Sam.DriverC06
 import Noodles.Util.DriverC20
+import Noodles.Io.DriverC12
 namespace Noodles
 open Noodles.Wire
 
@@ -35,6 +36,7 @@ def dispatch (line : String) : String :=
   | "c09" :: rest => Vcf.Driver.handle rest
   | "c06" :: rest => Sam.Drv.handleC06 rest
   | "c20" :: rest => Util.handleC20 rest
+  | "c12" :: rest => IO.handleC12 rest
   | _ => "bad-suite"
 
 end Noodles
